@@ -1,7 +1,7 @@
 (* C07 - Cancellation never hangs the injector nor yields a silent partial result. *)
 From Coq Require Import List Arith Bool.
 Import ListNotations.
-Require Import Sem2 Safe Live Fault Term.
+Require Import Sem2 Safe Live Fault Term Finite.
 
 (* The full statement is refuted on the model of the code as it is, by two mechanisms (known findings KF-C07-1, KF-C07-2).
    Program: A (node 0) async in a goroutine, B(a) (node 1) on the main thread; the injector has no error result, so the
@@ -57,3 +57,10 @@ Theorem C07_with_error_result_complete : forall p rank ls s, wfl p rank -> 0 < l
   (forall t x, nth_error (s_thr s) t = Some x -> x = TDone None) /\ (forall t j it, item_at p t j = Some it -> exited s (it_node it)).
 Proof. exact nil_error_means_complete. Qed.
 Print Assumptions C07_with_error_result_complete.
+
+(* No execution - cancelled before, during or never - runs forever: at most `bound p` steps besides the caller's
+   cancellations.  (So "never blocks forever" is exactly: the state in which nothing more can happen has the injector
+   returned - C07_with_error_result_returns; its failure without an error result is KF-C07-1.) *)
+Theorem C07_executions_finite : forall p ls s, run p (init p) ls = Some s -> length (filter noncancel ls) <= bound p.
+Proof. exact runs_are_finite. Qed.
+Print Assumptions C07_executions_finite.
